@@ -98,6 +98,7 @@ for d in sorted(Path("/root/r4").iterdir()):
 # ------------------------------------------------------------------ passing twins of round-5 breakers
 TWINS = {
     "C01_flat_average_repeat": ("C01", "TA", "tC01C/C01H with numpy.repeat(q_weights, np) instead of numpy.tile: the flattened (q, m) average with the weight of q on each of its modes"),
+    "C02_einsum_gap_normalised": ("C02", "TA", "tC13C/C13H with the weights divided by their sum instead of by 2: the einsum formulation of the two mode sums, weight-normalised (read by the cell-by-cell fold R02.7; the AVG-basis rules of the other properties cannot read it and end in exit 2)"),
     "C08_solution_frame_indexed": ("C08", "TA", "tC08B/C08G with index=elast.index: the labelled solution frame carries the table's own row labels, so the write-back aligns row by row"),
     "C18_gradient_scalar_spacing": ("C18", "TA", "tC18C/C18H with the spacing (v_hi - v_lo)/(ntv - 1): numpy.gradient with the scalar spacing of the uniform grid"),
     "C20_reshape_view_guarded": ("C20", "TA", "tC20B/C20G with the explicit width test kept in front of the per-atom reshaped view"),
